@@ -75,6 +75,8 @@ def gen_plan(rng, tier, idx, opts):
             else:
                 n = int(10 ** rng.uniform(0, 5))
             n = max(1, min(n, limit - pos))
+            if rng.random() < 0.04:
+                n = 0                                   # a skip of nothing
             ops.append({"op": "skip", "n": n})
             pos += n
         elif r < 0.33:
@@ -99,6 +101,8 @@ def gen_plan(rng, tier, idx, opts):
                 n = None
             else:
                 n = int(10 ** rng.uniform(0, np.log10(nmax))) if nmax > 1 else 1
+                if rng.random() < 0.1:
+                    n = rng.choice([L, nshape, L * nshape, 1, 2])      # coincidences of sizes
                 n = max(1, min(n, nmax))
             ops.append({"op": "generate", "n": n})
             pos += (n or 1)
